@@ -32,14 +32,20 @@ impl<'js> IntoJs<'js> for ActValue {
             serde_json::Value::Bool(v) => JsValue::new_bool(ctx.clone(), v),
             serde_json::Value::Number(v) => {
                 if v.is_i64() {
-                    let v = v.as_i64().unwrap_or_default() as i32;
-                    JsValue::new_int(ctx.clone(), v)
+                    let v = v.as_i64().unwrap_or_default();
+                    match i32::try_from(v) {
+                        Ok(v) => JsValue::new_int(ctx.clone(), v),
+                        Err(_) => JsValue::new_float(ctx.clone(), v as f64),
+                    }
                 } else if v.is_f64() {
                     let v = v.as_f64().unwrap_or_default();
                     JsValue::new_float(ctx.clone(), v)
                 } else {
-                    let v = v.as_i64().unwrap_or_default() as i32;
-                    JsValue::new_int(ctx.clone(), v)
+                    let v = v.as_u64().unwrap_or_default();
+                    match i32::try_from(v) {
+                        Ok(v) => JsValue::new_int(ctx.clone(), v),
+                        Err(_) => JsValue::new_float(ctx.clone(), v as f64),
+                    }
                 }
             }
             serde_json::Value::String(v) => {
